@@ -692,10 +692,12 @@ impl MutableArchive {
                 // An I/O error must abort the compaction: skipping the file would silently
                 // drop it from the archive that replaces the original
                 Err(Error::Io(e)) => return Err(Error::Io(e)),
-                Err(_) => {
-                    // Skip files we can't read
-                    log::warn!("Skipping file {filename} during compaction (read error)");
-                    continue;
+                // Any other failure aborts as well: the compacted archive replaces the original,
+                // so a file that cannot be read now (tables of the re-opened archive missing after
+                // a failed load, damaged data, ...) would be lost for good
+                Err(e) => {
+                    log::warn!("Cannot read {filename} during compaction: {e}");
+                    return Err(e);
                 }
             };
 
